@@ -96,6 +96,17 @@ impl<E: FieldElement, H: ElementHasher<BaseField = E::BaseField>> VerifierChanne
             ConstraintQueries::new(constraint_queries, air, num_unique_queries as usize)?;
 
         // --- parse FRI proofs -------------------------------------------------------------------
+        // the proof must contain exactly one layer per FRI layer implied by the proof options: the
+        // FRI verifier reads that many layers, so surplus layers would be ignored (and thus not
+        // bound to anything the verifier checks) and missing layers could not be read
+        let num_fri_layers = fri_options.num_fri_layers(lde_domain_size);
+        if fri_proof.num_layers() != num_fri_layers {
+            return Err(VerifierError::ProofDeserializationError(format!(
+                "expected {} FRI layers, but the proof contains {}",
+                num_fri_layers,
+                fri_proof.num_layers()
+            )));
+        }
         let fri_num_partitions = fri_proof.num_partitions();
         let fri_remainder = fri_proof
             .parse_remainder()
